@@ -28,7 +28,9 @@ def run(case, obs):
         plan = []
         if case['fail_every'] and i % case['fail_every'] == 1:
             plan.append(('A', 'fail', None))
-        if rng.random() < 0.3:
+        if case.get('waiters'):
+            plan.append(('A', 'sleep', 0.003))
+        elif rng.random() < 0.3:
             plan.append(('A', 'sleep', rng.choice([0.0005, 0.002, 0.006])))
         items.append(('tok', 0, i, tuple(plan)))
     reject_ids = {(0, i) for i in range(n) if case['reject_every'] and i % case['reject_every'] == 0}
@@ -39,6 +41,7 @@ def run(case, obs):
                                  ThreadServlet(TagWorker, tag='B', num_threads=1))
 
     skw = dict(return_x=case['return_x'], return_exceptions=case['return_exceptions'])
+    ncon = (6 if n else 0) if not case.get('waiters') else 12
 
     def sync_run():
         calls = []
@@ -54,7 +57,23 @@ def run(case, obs):
                     out.append(norm_exc(z))
             except Exception as e:  # noqa: BLE001
                 term = ('RAISED', norm_exc(e))
-        return calls, out, term
+            # several callers waiting for room at the same time (no backpressure): everybody must be served
+            conc = {}
+
+            def one(i):
+                try:
+                    conc[i] = norm_exc(s.call(items[i % len(items)], timeout=8, backpressure=False))
+                except Exception as e:  # noqa: BLE001
+                    conc[i] = ('EXC', type(e).__name__)
+
+            import threading
+
+            ths = [threading.Thread(target=one, args=(i,)) for i in range(ncon)]
+            for t in ths:
+                t.start()
+            for t in ths:
+                t.join()
+        return calls, out, term, [conc[i] for i in range(ncon)]
 
     async def async_run():
         calls = []
@@ -75,7 +94,16 @@ def run(case, obs):
                     out.append(norm_exc(z))
             except Exception as e:  # noqa: BLE001
                 term = ('RAISED', norm_exc(e))
-        return calls, out, term
+            conc = {}
+
+            async def one(i):
+                try:
+                    conc[i] = norm_exc(await s.call(items[i % len(items)], timeout=8, backpressure=False))
+                except Exception as e:  # noqa: BLE001
+                    conc[i] = ('EXC', type(e).__name__)
+
+            await asyncio.gather(*[one(i) for i in range(ncon)])
+        return calls, out, term, [conc[i] for i in range(ncon)]
 
     viol = []
     try:
@@ -86,7 +114,8 @@ def run(case, obs):
         return {'violations': viol, 'obs': obs, 'exit_after': True}
     obs['pairs'] += 1
     obs['server_pairs'] = 1
-    obs['outputs_compared'] += len(rs[0]) + len(rs[1])
+    obs['outputs_compared'] += len(rs[0]) + len(rs[1]) + len(rs[3])
+    obs['concurrent_waiters'] = obs.get('concurrent_waiters', 0) + len(rs[3])
     if reject_ids:
         obs['pairs_with_rejection'] += 1
     if rs != ra:
